@@ -532,9 +532,15 @@ def _bytes_compare(ex, args, ins, where):
 
 
 # ------------------------------------------------------------------ hashes as uninterpreted functions
+def _b8(b):
+    if isinstance(b, z3.ArithRef):
+        return z3.Int2BV(b, 8)   # integer-backend byte used only as an argument of an uninterpreted function
+    return to_bv(b, 8)
+
+
 def bytes_to_bv(bs):
     """concatenate byte values (first byte most significant)"""
-    return z3.Concat(*[to_bv(b, 8) for b in bs]) if len(bs) > 1 else to_bv(bs[0], 8)
+    return z3.Concat(*[_b8(b) for b in bs]) if len(bs) > 1 else _b8(bs[0])
 
 
 def uf_hash(ex, name, bs, outbytes, real=None):
@@ -554,7 +560,10 @@ def uf_hash(ex, name, bs, outbytes, real=None):
         out = f(bytes_to_bv(bs))
     if 'hash-uf:' + name not in ex.cut_notes:
         ex.cut_notes.add('hash-uf:' + name)
-    return [z3.Extract(8 * (outbytes - i) - 1, 8 * (outbytes - i - 1), out) for i in range(outbytes)]
+    res = [z3.Extract(8 * (outbytes - i) - 1, 8 * (outbytes - i - 1), out) for i in range(outbytes)]
+    if ex.intmode:
+        res = [z3.BV2Int(x) for x in res]
+    return res
 
 
 def _sha256(b):
